@@ -94,7 +94,7 @@ def _hyp_round(law, n, seedval, excluded, acc, shrink):
             return
         except Violation as v:
             acc.note(law, case, False)
-            holder['fail'] = (case, v)
+            holder['fail'] = (v.case if v.case is not None else case, v)     # a check may hand back a smaller case that fails for the same reason
             raise
         acc.note(law, case, False)
         acc.keys[k] += 1
